@@ -2,7 +2,7 @@
 From Coq Require Import List String ZArith NArith Bool Lia.
 From AV Require Import Model.Str Model.Encode Model.Query Model.VTypes Model.Interval Model.Eval Model.CL
   Model.VerifierLegacy Model.VerifierW3C Model.VCfg Model.VProps
-  Proofs.VMonad Proofs.VLegacyProofs Proofs.VLegacyStruct Proofs.VCLFacts Proofs.VLegacyMaster Proofs.VW3CMaster
+  Proofs.VMonad Proofs.VLegacyProofs Proofs.VLegacyStruct Proofs.VCLFacts Proofs.VLegacyMaster Proofs.VW3CMaster Proofs.VW3CSearch
   Proofs.IntervalProofs Proofs.C03Proofs Proofs.C01Proofs.
 Import ListNotations.
 Open Scope string_scope.
@@ -192,60 +192,6 @@ Section C02.
     - apply Hl. left. reflexivity.
   Qed.
 
-  (* index-tracking versions of the search lemmas *)
-  Lemma find_revealed_idx R cx name q nr cs : forall i l, find_revealed cfg R cx name q nr i cs = Some l ->
-    exists j c id sp k v u b, nthZ cs (j - i) = Some (c, (id, sp)) /\ i <= j /\ get_attribute c name = Some (k, v) /\
-      verify_value k sp (Encode.encode (value_to_string v)) = ROk u /\ cred_conditions cfg R cx c id q nr = Some b /\ l = need j b.
-  Proof.
-    induction cs as [|[c [id sp]] r IH]; intros i l H; cbn [find_revealed] in H; [discriminate|].
-    assert (Hrec : forall l', find_revealed cfg R cx name q nr (i + 1) r = Some l' ->
-              exists j c0 id0 sp0 k v u b, nthZ ((c, (id, sp)) :: r) (j - i) = Some (c0, (id0, sp0)) /\ i <= j /\ get_attribute c0 name = Some (k, v) /\
-                verify_value k sp0 (Encode.encode (value_to_string v)) = ROk u /\ cred_conditions cfg R cx c0 id0 q nr = Some b /\ l' = need j b).
-    { intros l' Hl'. destruct (IH _ _ Hl') as (j & c0 & id0 & sp0 & k & v & u & b & Hn & Hle & Hr).
-      exists j, c0, id0, sp0, k, v, u, b. split; [|split; [lia|exact Hr]].
-      rewrite nthZ_cons_pos by lia. replace (j - i - 1) with (j - (i + 1)) by lia. exact Hn. }
-    destruct (get_attribute c name) as [[k v]|] eqn:Eg; [|apply Hrec; exact H].
-    destruct (verify_value k sp _) as [u| |] eqn:Ev; cbn [is_ok] in H; try (apply Hrec; exact H).
-    destruct (cred_conditions cfg R cx c id q nr) as [b|] eqn:Ec; [|apply Hrec; exact H].
-    inversion H; subst l. exists i, c, id, sp, k, v, u, b. replace (i - i) with 0 by lia. repeat split; auto. lia.
-  Qed.
-
-  Lemma find_unrevealed_idx R cx name q nr cs : forall i l, find_unrevealed cfg R cx name q nr i cs = ROk l ->
-    exists j c id sp sc b, nthZ cs (j - i) = Some (c, (id, sp)) /\ i <= j /\ assoc (id_schema id) (cx_schemas cx) = Some sc /\
-      existsb (fun a => String.eqb (cv a) (cv name)) (sc_attrs sc) = true /\ cred_conditions cfg R cx c id q nr = Some b /\ l = need j b.
-  Proof.
-    induction cs as [|[c [id sp]] r IH]; intros i l H; cbn [find_unrevealed] in H; [discriminate|].
-    apply bind_ok in H. destruct H as (sc & Hsc & H). apply of_opt_ok in Hsc.
-    assert (Hrec : forall l', find_unrevealed cfg R cx name q nr (i + 1) r = ROk l' ->
-              exists j c0 id0 sp0 sc0 b, nthZ ((c, (id, sp)) :: r) (j - i) = Some (c0, (id0, sp0)) /\ i <= j /\ assoc (id_schema id0) (cx_schemas cx) = Some sc0 /\
-                existsb (fun a => String.eqb (cv a) (cv name)) (sc_attrs sc0) = true /\ cred_conditions cfg R cx c0 id0 q nr = Some b /\ l' = need j b).
-    { intros l' Hl'. destruct (IH _ _ Hl') as (j & c0 & id0 & sp0 & sc0 & b & Hn & Hle & Hr).
-      exists j, c0, id0, sp0, sc0, b. split; [|split; [lia|exact Hr]].
-      rewrite nthZ_cons_pos by lia. replace (j - i - 1) with (j - (i + 1)) by lia. exact Hn. }
-    destruct (existsb _ (sc_attrs sc)) eqn:Ee; [|apply Hrec; exact H].
-    destruct (cred_conditions cfg R cx c id q nr) as [b|] eqn:Ec; [|apply Hrec; exact H].
-    inversion H; subst l. exists i, c, id, sp, sc, b. replace (i - i) with 0 by lia. repeat split; auto. lia.
-  Qed.
-
-  Lemma check_predicate_idx R cx pi cs : forall i l, check_predicate cfg R cx pi i cs = ROk l ->
-    exists j c id sp k b, nthZ cs (j - i) = Some (c, (id, sp)) /\ i <= j /\ get_predicate c (pi_name pi) = Some k /\
-      existsb (fun p => pred_eqb p ((if f_w3c_pred_cv cfg then cv k else k), pi_type pi, pi_value pi)) (sp_preds sp) = true /\
-      cred_conditions cfg R cx c id (pi_restr pi) (pi_nr pi) = Some b /\ l = need j b.
-  Proof.
-    induction cs as [|[c [id sp]] r IH]; intros i l H; cbn [check_predicate] in H; [discriminate|].
-    assert (Hrec : forall l', check_predicate cfg R cx pi (i + 1) r = ROk l' ->
-              exists j c0 id0 sp0 k b, nthZ ((c, (id, sp)) :: r) (j - i) = Some (c0, (id0, sp0)) /\ i <= j /\ get_predicate c0 (pi_name pi) = Some k /\
-                existsb (fun p => pred_eqb p ((if f_w3c_pred_cv cfg then cv k else k), pi_type pi, pi_value pi)) (sp_preds sp0) = true /\
-                cred_conditions cfg R cx c0 id0 (pi_restr pi) (pi_nr pi) = Some b /\ l' = need j b).
-    { intros l' Hl'. destruct (IH _ _ Hl') as (j & c0 & id0 & sp0 & k & b & Hn & Hle & Hr).
-      exists j, c0, id0, sp0, k, b. split; [|split; [lia|exact Hr]].
-      rewrite nthZ_cons_pos by lia. replace (j - i - 1) with (j - (i + 1)) by lia. exact Hn. }
-    destruct (get_predicate c (pi_name pi)) as [k|] eqn:Eg; [|apply Hrec; exact H].
-    destruct (existsb _ (sp_preds sp)) eqn:Ee; [|apply Hrec; exact H].
-    destruct (cred_conditions cfg R cx c id (pi_restr pi) (pi_nr pi)) as [b|] eqn:Ec; [|apply Hrec; exact H].
-    inversion H; subst l. exists i, c, id, sp, k, b. replace (i - i) with 0 by lia. repeat split; auto. lia.
-  Qed.
-
   Lemma mapR_in_out {A B} (f : A -> res B) l l' x y : mapR f l = ROk l' -> In x l -> f x = ROk y -> In y l'.
   Proof.
     intros H Hin Hy. apply mapR_ok in H. induction H as [|a b l1 l2 Hab H IH]; [destruct Hin|].
@@ -325,10 +271,10 @@ Section C02.
           - destruct (ai_names ai) as [ns|]; [|destruct Hn']. apply bind_ok in Hl2. destruct Hl2 as (ls & Hls & Hl2). inversion Hl2; subst l2.
             destruct (mapR_in _ _ _ _ Hls Hn') as (l' & Hl'). exists l'. split; [exact Hl'|].
             intros z Hz. apply in_or_app. right. eapply in_concat_of; [eapply mapR_in_out; eauto|exact Hz]. }
-        destruct Hchk as (l & Hchk & Hsub). unfold check_attribute in Hchk.
+        destruct Hchk as (l & Hchk & Hsub).
         assert (Hserved : exists b, cred_conditions cfg R cx c id (ai_restr ai) (ai_nr ai) = Some b /\ l = need i b).
-        { destruct (find_revealed cfg R cx n (ai_restr ai) (ai_nr ai) 0 cs) as [l'|] eqn:Ef.
-          - inversion Hchk; subst l'. destruct (find_revealed_idx _ _ _ _ _ _ _ _ Ef) as (j & c' & id' & sp' & k & v & u & b & Hj & _ & Hga & Hv & Hcc & Hl).
+        { destruct (check_attribute_cases _ _ _ _ _ _ _ _ Hchk) as [[st Ef]|[st Eu]].
+          - destruct (find_revealed_idx _ _ _ _ _ _ _ _ _ _ Ef) as (j & c' & id' & sp' & k & v & u & b & Hj & _ & Hga & Hv & Hcc & Hl).
             replace (j - 0) with j in Hj by lia.
             assert (Hcould : could_serve_attr n sp' = true).
             { unfold could_serve_attr. apply orb_true_intro. left.
@@ -338,7 +284,7 @@ Section C02.
               pose proof (reveals_of_verified _ _ _ _ (Hnormsp _ _ _ _ Hj) Hv) as Hr. unfold reveals in *. rewrite <- Hcv. exact Hr. }
             assert (Hjs : nthZ sps j = Some sp') by (unfold sps; rewrite map_map, nthZ_map, Hj; reflexivity).
             pose proof (only_server_unique _ _ _ _ _ Eonly Hjs Hcould) as ->. rewrite Ei in Hj. inversion Hj; subst c' id' sp'. eauto.
-          - destruct (find_unrevealed_idx _ _ _ _ _ _ _ _ Hchk) as (j & c' & id' & sp' & sc' & b & Hj & _ & Hsc' & He & Hcc & Hl).
+          - destruct (find_unrevealed_idx _ _ _ _ _ _ _ _ _ _ Eu) as (j & c' & id' & sp' & sc' & b & Hj & _ & Hsc' & He & Hcc & Hl).
             replace (j - 0) with j in Hj by lia.
             assert (Hcould : could_serve_attr n sp' = true).
             { unfold could_serve_attr. apply orb_true_intro. right.
@@ -355,7 +301,8 @@ Section C02.
       - apply in_flat_map in HD. destruct HD as ([r pi] & Hrp & HD). cbn [snd] in HD.
         destruct (only_server (fun sp1 => proves_pred sp1 pi) sps i) eqn:Eonly; [|destruct HD]. destruct HD as [<-|[]].
         destruct (mapR_in _ _ _ _ Hnp Hrp) as (l & Hl). pose proof (mapR_in_out _ _ _ _ _ Hnp Hrp Hl) as Hlin. cbn beta iota in Hl.
-        destruct (check_predicate_idx _ _ _ _ _ _ Hl) as (j & c' & id' & sp' & k & b & Hj & _ & Hgp & He & Hcc & Hlb).
+        destruct (check_predicate_cases _ _ _ _ _ _ Hl) as [st Hfp].
+        destruct (find_predicate_idx _ _ _ _ _ _ _ _ Hfp) as (j & c' & id' & sp' & k & b & Hj & _ & Hgp & He & Hcc & Hlb).
         replace (j - 0) with j in Hj by lia.
         assert (Hcould : proves_pred sp' pi = true).
         { unfold proves_pred. apply existsb_exists in He. destruct He as (p0 & Hp0 & Hpe). apply existsb_exists. exists p0. split; [exact Hp0|].
